@@ -10,7 +10,8 @@
     and then error [e] (io.EOF = [EEof]); [pulls] is any number of successful reads. *)
 From Coq Require Import List ZArith NArith Bool.
 From BBS Require Import Common.Sx Buffer.Source Buffer.Validate Buffer.Convert
-  Buffer.StreamProofs Buffer.ValidateProofs Buffer.ConvertProofs Run.R09.
+  Buffer.StreamProofs Buffer.ValidateProofs Buffer.ConvertProofs
+  Buffer.ValidateReaderProofs Buffer.ReaderBufferProofs Run.R09.
 Import ListNotations.
 Open Scope N_scope.
 
@@ -71,22 +72,73 @@ Theorem sticky : forall H cfg S (rd : S -> bytes * err * S) fuel st c e st',
 Proof. exact vcr_sticky. Qed.
 Print Assumptions sticky.
 
-(** NewCASBufferFromChunkReader over any script, any digest, any offset and
-    chunk size.  Full statement (all methods but Discard, and the same for
-    NewCASBufferFromReader via casValidatingReader):
+(** * casValidatingReader, over ANY underlying io.Reader [(S, rd)] whose
+    remaining content is given by [cont] (law [rd_spec]: a read hands out a
+    prefix of what is left; an error ends it) and that never returns
+    io.ErrUnexpectedEOF itself.  [rdrains]/[rpulls]: reads with arbitrary
+    buffer sizes; data returned together with the final error is received. *)
+Theorem reader_complete_implies_valid : forall H cfg S (rd : N -> S -> bytes * err * S) fuel cont,
+  (forall cap s c e s', rd cap s = ((c, e), s') ->
+     match e with ENone => cont s = (c ++ fst (cont s'), snd (cont s')) | _ => cont s = (c, e) end) ->
+  (forall cap s c e s', rd cap s = ((c, e), s') -> e <> EUnexp) ->
+  forall u0 out st',
+  rdrains (vr_read H cfg rd fuel) (vinit cfg u0) out EEof st' ->
+  cont u0 = (out, EEof) /\ lenN out = g_size cfg /\ g_hash cfg = H out.
+Proof. exact vr_complete_implies_valid. Qed.
+Print Assumptions reader_complete_implies_valid.
 
-      forall H cfg fuel evs m o, m <> MDiscard ->
-        cas_chunk_reader H cfg fuel evs m = o -> completed m (o_err o) = true ->
+Theorem reader_withhold : forall H cfg S (rd : N -> S -> bytes * err * S) fuel cont,
+  (forall cap s c e s', rd cap s = ((c, e), s') ->
+     match e with ENone => cont s = (c ++ fst (cont s'), snd (cont s')) | _ => cont s = (c, e) end) ->
+  (forall cap s c e s', rd cap s = ((c, e), s') -> e <> EUnexp) ->
+  forall u0 out e st',
+  rpulls (vr_read H cfg rd fuel) (vinit cfg u0) out st' \/ rdrains (vr_read H cfg rd fuel) (vinit cfg u0) out e st' ->
+  ~ valid_reader H cfg cont u0 -> lenN out < g_size cfg \/ out = [].
+Proof. exact vr_withhold. Qed.
+Print Assumptions reader_withhold.
+
+Theorem reader_callback_sound : forall H cfg S (rd : N -> S -> bytes * err * S) fuel cont,
+  (forall cap s c e s', rd cap s = ((c, e), s') ->
+     match e with ENone => cont s = (c ++ fst (cont s'), snd (cont s')) | _ => cont s = (c, e) end) ->
+  (forall cap s c e s', rd cap s = ((c, e), s') -> e <> EUnexp) ->
+  forall u0 out e st',
+  rpulls (vr_read H cfg rd fuel) (vinit cfg u0) out st' \/ rdrains (vr_read H cfg rd fuel) (vinit cfg u0) out e st' ->
+  (In true (v_cbs st') -> valid_reader H cfg cont u0) /\ (In false (v_cbs st') -> ~ valid_reader H cfg cont u0).
+Proof. exact vr_callback_sound. Qed.
+Print Assumptions reader_callback_sound.
+
+Theorem reader_sticky : forall H cfg S (rd : N -> S -> bytes * err * S) fuel st cap d e st',
+  vr_read H cfg rd fuel cap st = ((d, e), st') -> e <> ENone ->
+  forall cap', vr_read H cfg rd fuel cap' st' = (([], e), st').
+Proof. exact vr_sticky. Qed.
+Print Assumptions reader_sticky.
+
+(** * The exported constructors.  Full statement, for both stream
+    constructors [C] in {cas_chunk_reader, cas_reader}, every script, digest,
+    hash function, method and parameter:
+
+      forall m o, m <> MDiscard -> C ... m = o -> completed m (o_err o) = true ->
         valid_script H cfg evs /\ o_data o = expected_slice m (fst (content evs))
 
-    Proved for ToByteSlice, IntoWriter, ToChunkReader and CloneCopy; ReadAt and
-    ToReader (and the io.Reader path) are covered by the correspondence check only. *)
+    Proved: NewCASBufferFromChunkReader for ToByteSlice, IntoWriter, ToChunkReader
+    (any offset / chunk size) and CloneCopy; NewCASBufferFromReader for ToByteSlice,
+    IntoWriter, ToReader (any read sizes) and CloneCopy; NewCASBufferFromByteSlice for
+    every method.  The remaining constructor x method pairs (ReadAt; ToReader of
+    chunk-reader buffers; ToChunkReader of reader buffers) rest on the validator
+    theorems above plus the correspondence check. *)
 Theorem chunk_reader_buffer_complete_implies_valid_partial : forall H cfg fuel evs m o,
   match m with MToByteSlice _ | MIntoWriter | MCloneCopy _ | MToChunkReader _ _ _ => True | _ => False end ->
   cas_chunk_reader H cfg fuel evs m = o -> completed m (o_err o) = true ->
   valid_script H cfg evs /\ o_data o = expected_slice m (fst (content evs)).
 Proof. exact chunk_reader_complete_implies_valid_partial. Qed.
 Print Assumptions chunk_reader_buffer_complete_implies_valid_partial.
+
+Theorem reader_buffer_complete_implies_valid_partial : forall H cfg fuel evs attach m o,
+  match m with MToByteSlice _ | MIntoWriter | MCloneCopy _ | MToReader _ _ => True | _ => False end ->
+  cas_reader H cfg fuel evs attach m = o -> completed m (o_err o) = true ->
+  valid_script H cfg evs /\ o_data o = expected_slice m (fst (content evs)).
+Proof. exact reader_complete_implies_valid_partial. Qed.
+Print Assumptions reader_buffer_complete_implies_valid_partial.
 
 (** NewCASBufferFromByteSlice: every method. *)
 Theorem byte_slice_buffer_complete_implies_valid : forall H cfg fuel data m,
